@@ -61,9 +61,9 @@ class XMLParser {
     std::vector<context> m_context_stack;
     osmium::memory::Buffer m_buffer;
 
+    std::unique_ptr<osmium::builder::WayNodeListBuilder> m_wnl_builder;    // TS-order: declared before the builder it is constructed on
     std::unique_ptr<osmium::builder::WayBuilder> m_way_builder;
     std::unique_ptr<osmium::builder::TagListBuilder> m_tl_builder;
-    std::unique_ptr<osmium::builder::WayNodeListBuilder> m_wnl_builder;
     std::unique_ptr<osmium::builder::ChangesetDiscussionBuilder> m_changeset_discussion_builder;
 
     osmium::memory::Buffer& buffer() noexcept { return m_buffer; }
